@@ -4,11 +4,23 @@
    (start, tag, milestone, end) with StartTracing / StopTracing / Terminate.
 
    The tracing window is controlled by StartTracing/StopTracing only (the real
-   DBTracer has no time-range option; it starts with tracing off).  The clock
-   advances by one before every event, except that a milestone may also happen
-   at the instant of the previous event — so start, end and tracing calls all
-   have distinct times ("running while tracing was on" has one meaning) and
-   milestones can share an instant.
+   DBTracer has no time-range option; it starts with tracing off).
+
+   Time and order.  Events carry the virtual time at which they happen; several
+   events may happen at the same instant, in any order.  Two clocks are explored
+   (per profile): "step" — the clock advances by one before every event (only a
+   milestone may share the instant of the previous event), so all times are
+   distinct; "free" — before ANY event the clock either stays or advances by one
+   (times 0..maxT; maxT = 0 is a frozen clock), so starts, ends, tags, milestones,
+   StartTracing and StopTracing coincide in time in every order.
+   "The task was running at some point while tracing was on" is read by EVENT
+   ORDER: there is a point in the stream at which the task has started and not
+   ended and tracing has been switched on and not off.  A task that is running
+   when StartTracing is called, or starts while tracing is on, is recorded even if
+   the overlap has length zero (same instant); a task whose end event precedes the
+   StartTracing call at the same instant, or whose start follows the StopTracing
+   call at the same instant, has not run while tracing was on.  Timestamps alone
+   cannot tell these cases apart — the event order does.  Nothing is left free here.
 
    `hist` is the stream; everything the database must contain is DEFINED FROM
    THE STREAM as sets (no incremental marking): Windows, Recorded, TagRows,
@@ -42,20 +54,31 @@ vars == <<prof, hist, now, ph, tracing, dead>>
    StopTracing calls while tracing is off;  early: a tag / milestone may also name a task
    that has not started yet (dbtracer.go: "A task may first be mentioned by a tag or a
    milestone");  names: the k-th tag (milestone) of a stream uses name (kind)
-   1 + (k-1) % names, so neighbouring milestones differ and "which one was kept" shows. *)
-B(nt, tg, ms, win, stray, names, early) ==
-    [nt |-> nt, tags |-> tg, ms |-> ms, win |-> win, stray |-> stray, names |-> names, early |-> early]
+   1 + (k-1) % names, so neighbouring milestones differ and "which one was kept" shows;
+   clock / maxT: see "Time and order" above.                                            *)
+B(nt, tg, ms, win, stray, names, early, clock, maxT) ==
+    [nt |-> nt, tags |-> tg, ms |-> ms, win |-> win, stray |-> stray, names |-> names, early |-> early,
+     clock |-> clock, maxT |-> maxT]
 ProfileDef(p) ==
-    CASE p = "win1stray"  -> B(3, 0, 0, 1, 1, 1, FALSE)   \* one window, one unmatched stop
-      [] p = "win2"       -> B(3, 0, 0, 2, 0, 1, FALSE)   \* two windows
-      [] p = "win2small"  -> B(2, 0, 0, 2, 1, 1, FALSE)
-      [] p = "win2stray"  -> B(3, 0, 0, 2, 1, 1, FALSE)
-      [] p = "riders1"    -> B(1, 1, 2, 1, 1, 2, FALSE)   \* one task with a tag and milestones
-      [] p = "riders1big" -> B(1, 1, 3, 1, 1, 2, FALSE)
-      [] p = "riders2"    -> B(2, 1, 1, 1, 0, 2, FALSE)   \* two tasks with a tag and a milestone
-      [] p = "riders2big" -> B(2, 1, 2, 1, 0, 2, FALSE)
-      [] p = "early1"     -> B(1, 1, 2, 1, 0, 2, TRUE)    \* riders that name a task before its start
-      [] p = "early2"     -> B(2, 1, 1, 1, 0, 2, TRUE)
+    CASE p = "win1stray"  -> B(3, 0, 0, 1, 1, 1, FALSE, "step", 0)   \* one window, one unmatched stop
+      [] p = "win2"       -> B(3, 0, 0, 2, 0, 1, FALSE, "step", 0)   \* two windows
+      [] p = "win2small"  -> B(2, 0, 0, 2, 1, 1, FALSE, "step", 0)
+      [] p = "win2stray"  -> B(3, 0, 0, 2, 1, 1, FALSE, "step", 0)
+      [] p = "riders1"    -> B(1, 1, 2, 1, 1, 2, FALSE, "step", 0)   \* one task with a tag and milestones
+      [] p = "riders1big" -> B(1, 1, 3, 1, 1, 2, FALSE, "step", 0)
+      [] p = "riders2"    -> B(2, 1, 1, 1, 0, 2, FALSE, "step", 0)   \* two tasks with a tag and a milestone
+      [] p = "riders2big" -> B(2, 1, 2, 1, 0, 2, FALSE, "step", 0)
+      [] p = "early1"     -> B(1, 1, 2, 1, 0, 2, TRUE, "step", 0)    \* riders that name a task before its start
+      [] p = "early2"     -> B(2, 1, 1, 1, 0, 2, TRUE, "step", 0)
+      \* same-instant streams: every event may share the instant of the previous one
+      [] p = "frozen3"    -> B(3, 0, 0, 2, 1, 1, FALSE, "free", 0)   \* all events at one instant
+      [] p = "frozenrid"  -> B(2, 1, 2, 1, 0, 2, TRUE, "free", 0)
+      [] p = "same2"      -> B(2, 0, 0, 1, 1, 1, FALSE, "free", 2)   \* times 0..2, any coincidences
+      [] p = "same2w2"    -> B(2, 0, 0, 2, 0, 1, FALSE, "free", 1)
+      [] p = "same3"      -> B(3, 0, 0, 1, 0, 1, FALSE, "free", 1)
+      [] p = "same3big"   -> B(3, 0, 0, 2, 1, 1, FALSE, "free", 1)
+      [] p = "samerid"    -> B(1, 1, 2, 1, 0, 2, TRUE, "free", 2)
+      [] p = "sameridbig" -> B(2, 1, 2, 1, 0, 2, TRUE, "free", 1)
 P == ProfileDef(prof)
 NTasks     == P.nt
 MaxTags    == P.tags
@@ -64,6 +87,9 @@ MaxWindows == P.win
 MaxStray   == P.stray
 NumNames   == P.names
 Early      == P.early
+(* how far the clock may advance before an event of kind op *)
+Ticks(op)  == IF P.clock = "step" THEN (IF op = 3 THEN {0, 1} ELSE {1})   \* 3 = MS (milestone)
+              ELSE {d \in {0, 1} : now + d <= P.maxT}
 
 Tasks == 1..NTasks
 START == 0
@@ -90,17 +116,26 @@ Ended(t)   == \E i \in Pos : Is(i, END, t)
 StartTime(t) == Time(CHOOSE i \in Pos : Is(i, START, t))
 EndTime(t)   == Time(CHOOSE i \in Pos : Is(i, END, t))
 
-(* A tracing window opens at a StartTracing call and is closed by the next
-   StopTracing or by Terminate; <<open position, open time, close time>>.     *)
-Closers(i) == {j \in (i + 1)..Len(hist) : Op(j) \in {STOPTR, TERM}}
-CloseTime(i) == LET c == Closers(i)
-                IN  IF c = {} THEN Infinity ELSE Time(CHOOSE j \in c : \A k \in c : j <= k)
-Windows == {<<i, Time(i), CloseTime(i)>> : i \in {p \in Pos : Op(p) = STARTTR}}
+StartPos(t) == CHOOSE i \in Pos : Is(i, START, t)
+EndPos(t)   == CHOOSE i \in Pos : Is(i, END, t)
 
-(* "the task was running at some point while tracing was on": its interval
-   [start, end] meets a window [open, close]; "and ended before termination":
-   it has an end event (nothing follows Terminate).                           *)
-RunningWhileTracing(t, W) == \E w \in W : StartTime(t) <= w[3] /\ w[2] <= EndTime(t)
+(* A tracing window opens at a StartTracing call and is closed by the next
+   StopTracing or by Terminate: <<open position, open time, close time, close
+   position>> (close position Len(hist) + 1 and time Infinity while still open). *)
+Closers(i) == {j \in (i + 1)..Len(hist) : Op(j) \in {STOPTR, TERM}}
+ClosePos(i) == LET c == Closers(i)
+               IN  IF c = {} THEN Len(hist) + 1 ELSE CHOOSE j \in c : \A k \in c : j <= k
+Windows == {LET c == ClosePos(i) IN <<i, Time(i), IF c > Len(hist) THEN Infinity ELSE Time(c), c>> :
+              i \in {p \in Pos : Op(p) = STARTTR}}
+
+(* "the task was running at some point while tracing was on", by event order: the
+   task is running after the events StartPos(t) .. EndPos(t) - 1, tracing is on after
+   the events w[1] .. w[4] - 1; the two ranges of positions share a point.
+   "and ended before termination": it has an end event (nothing follows Terminate). *)
+RunningWhileTracing(t, W) ==
+    \E w \in W : LET from == IF StartPos(t) > w[1] THEN StartPos(t) ELSE w[1]
+                     to   == IF EndPos(t) < w[4] THEN EndPos(t) ELSE w[4]
+                 IN  from < to
 RecordedOf(W) == {t \in Tasks : Started(t) /\ Ended(t) /\ RunningWhileTracing(t, W)}
 Recorded == RecordedOf(Windows)
 
@@ -113,7 +148,7 @@ MsPos(t, u) == {p \in Pos : Op(p) = MS /\ TaskOf(p) = t /\ Time(p) = u}
 MsGroupsOf(R) == {<<k[1], k[2], MsPos(k[1], k[2])>> :
                     k \in {<<TaskOf(p), Time(p)>> : p \in {q \in Pos : Op(q) = MS /\ TaskOf(q) \in R}}}
 (* one segment per window (a bag: the open position keeps equal windows apart) *)
-SegmentsOf(W) == {w \in W : w[3] # Infinity}
+SegmentsOf(W) == {<<w[1], w[2], w[3]>> : w \in {v \in W : v[3] # Infinity}}
 
 TaskRows == TaskRowsOf(Recorded)
 TagRows  == TagRowsOf(Recorded)
@@ -134,36 +169,37 @@ Init == /\ prof \in Profiles
 
 Log(op, t, u, x) == hist' = Append(hist, <<op, t, u, x>>) /\ now' = u /\ UNCHANGED prof
 
-Start(t) == /\ ph[t] = "idle" /\ (IF t = 1 THEN TRUE ELSE ph[t - 1] # "idle")
-            /\ ph' = [ph EXCEPT ![t] = "run"] /\ UNCHANGED <<tracing, dead>>
-            /\ Log(START, t, now + 1, 0)
-End(t)   == /\ ph[t] = "run"
-            /\ ph' = [ph EXCEPT ![t] = "done"] /\ UNCHANGED <<tracing, dead>>
-            /\ Log(END, t, now + 1, 0)
+Start(t, d) == /\ ph[t] = "idle" /\ (IF t = 1 THEN TRUE ELSE ph[t - 1] # "idle") /\ d \in Ticks(START)
+               /\ ph' = [ph EXCEPT ![t] = "run"] /\ UNCHANGED <<tracing, dead>>
+               /\ Log(START, t, now + d, 0)
+End(t, d)   == /\ ph[t] = "run" /\ d \in Ticks(END)
+               /\ ph' = [ph EXCEPT ![t] = "done"] /\ UNCHANGED <<tracing, dead>>
+               /\ Log(END, t, now + d, 0)
 Mentionable(t) == ph[t] = "run" \/ (Early /\ ph[t] = "idle")
-Tag(t) == /\ Mentionable(t) /\ Count(TAG) < MaxTags
-          /\ UNCHANGED <<ph, tracing, dead>>
-          /\ Log(TAG, t, now + 1, 1 + (Count(TAG) % NumNames))
-(* a milestone happens at the instant of the previous event or one later *)
-Milestone(t, dt) == /\ Mentionable(t) /\ Count(MS) < MaxMs
-                    /\ UNCHANGED <<ph, tracing, dead>>
-                    /\ Log(MS, t, now + dt, 1 + (Count(MS) % NumNames))
-StartTracing == /\ ~tracing /\ Count(STARTTR) < MaxWindows
-                /\ tracing' = TRUE /\ UNCHANGED <<ph, dead>>
-                /\ Log(STARTTR, 0, now + 1, 0)
-StopTracing  == /\ tracing
-                /\ tracing' = FALSE /\ UNCHANGED <<ph, dead>>
-                /\ Log(STOPTR, 0, now + 1, 0)
+Tag(t, d) == /\ Mentionable(t) /\ Count(TAG) < MaxTags /\ d \in Ticks(TAG)
+             /\ UNCHANGED <<ph, tracing, dead>>
+             /\ Log(TAG, t, now + d, 1 + (Count(TAG) % NumNames))
+Milestone(t, d) == /\ Mentionable(t) /\ Count(MS) < MaxMs /\ d \in Ticks(MS)
+                   /\ UNCHANGED <<ph, tracing, dead>>
+                   /\ Log(MS, t, now + d, 1 + (Count(MS) % NumNames))
+StartTracing(d) == /\ ~tracing /\ Count(STARTTR) < MaxWindows /\ d \in Ticks(STARTTR)
+                   /\ tracing' = TRUE /\ UNCHANGED <<ph, dead>>
+                   /\ Log(STARTTR, 0, now + d, 0)
+StopTracing(d)  == /\ tracing /\ d \in Ticks(STOPTR)
+                   /\ tracing' = FALSE /\ UNCHANGED <<ph, dead>>
+                   /\ Log(STOPTR, 0, now + d, 0)
 (* StopTracing while tracing is off: no window, so no segment (x = 1 marks it) *)
-StrayStop    == /\ ~tracing /\ StrayStops < MaxStray
-                /\ UNCHANGED <<ph, tracing, dead>>
-                /\ Log(STOPTR, 0, now + 1, 1)
-Terminate    == /\ dead' = TRUE /\ tracing' = FALSE /\ UNCHANGED ph
-                /\ Log(TERM, 0, now + 1, 0)
+StrayStop(d)    == /\ ~tracing /\ StrayStops < MaxStray /\ d \in Ticks(STOPTR)
+                   /\ UNCHANGED <<ph, tracing, dead>>
+                   /\ Log(STOPTR, 0, now + d, 1)
+Terminate(d)    == /\ d \in Ticks(TERM)
+                   /\ dead' = TRUE /\ tracing' = FALSE /\ UNCHANGED ph
+                   /\ Log(TERM, 0, now + d, 0)
 
 Next == /\ ~dead
-        /\ \/ \E t \in Tasks : Start(t) \/ End(t) \/ Tag(t) \/ Milestone(t, 0) \/ Milestone(t, 1)
-           \/ StartTracing \/ StopTracing \/ StrayStop \/ Terminate
+        /\ \E d \in {0, 1} :
+              \/ \E t \in Tasks : Start(t, d) \/ End(t, d) \/ Tag(t, d) \/ Milestone(t, d)
+              \/ StartTracing(d) \/ StopTracing(d) \/ StrayStop(d) \/ Terminate(d)
 
 Spec == Init /\ [][Next]_vars
 
@@ -173,22 +209,34 @@ EmitDone == dead => PrintT(<<"BEHAVIOUR", ToJson(Expected)>>)
 -----------------------------------------------------------------------------
 (* Properties of the specification itself.                                   *)
 
-(* A second, event-order reading of "running while tracing was on": after some
-   event the task is running and tracing is on.  With distinct event times the
-   two readings must agree.                                                   *)
+(* The event-order reading said literally: after some event the task is running
+   and tracing is on.  It must give the same set as the position ranges above. *)
 RunningAfter(t, i) == /\ \E j \in 1..i : Is(j, START, t)
                       /\ \A j \in 1..i : ~Is(j, END, t)
 TracingAfter(i) == \E j \in 1..i : /\ Op(j) = STARTTR
                                     /\ \A k \in (j + 1)..i : Op(k) \notin {STOPTR, TERM}
-RecordedByOrder == LET On == {i \in Pos : TracingAfter(i)}
-                   IN  {t \in Tasks : Ended(t) /\ \E i \in On : RunningAfter(t, i)}
-(* (checked on complete streams: every prefix followed by Terminate is one) *)
-ReadingsAgree == dead => Recorded = RecordedByOrder
+RecordedLiterally == LET On == {i \in Pos : TracingAfter(i)}
+                     IN  {t \in Tasks : Ended(t) /\ \E i \in On : RunningAfter(t, i)}
+(* ... and the timestamps bracket it: an overlap of positive length implies it, and it
+   implies that the closed intervals [start, end] and [open, close] meet; when all
+   times are distinct ("step" clock) the timestamps decide it.
+   (checked on complete streams: every prefix followed by Terminate is one) *)
+MeetClosed(t, W) == \E w \in W : StartTime(t) <= w[3] /\ w[2] <= EndTime(t)
+MeetOpen(t, W)   == \E w \in W : LET lo == IF StartTime(t) > w[2] THEN StartTime(t) ELSE w[2]
+                                     hi == IF EndTime(t) < w[3] THEN EndTime(t) ELSE w[3]
+                                 IN  lo < hi
+ReadingsAgree == dead => LET W == Windows
+                             R == RecordedOf(W)
+                             E == {t \in Tasks : Ended(t)}
+                         IN  /\ R = RecordedLiterally
+                             /\ {t \in E : MeetOpen(t, W)} \subseteq R
+                             /\ R \subseteq {t \in E : MeetClosed(t, W)}
+                             /\ P.clock = "step" => R = {t \in E : MeetClosed(t, W)}
 
 TypeOK == /\ prof \in Profiles /\ tracing \in BOOLEAN /\ dead \in BOOLEAN
           /\ \A t \in Tasks : /\ (ph[t] = "idle") = ~Started(t)
                               /\ (ph[t] = "done") = Ended(t)
-                              /\ Ended(t) => StartTime(t) < EndTime(t)
+                              /\ Ended(t) => StartTime(t) <= EndTime(t) /\ StartPos(t) < EndPos(t)
           /\ \A i \in 1..(Len(hist) - 1) : Time(i) <= Time(i + 1)
           /\ dead => /\ Op(Len(hist)) = TERM
                      /\ \A t \in Tasks : Cardinality(PosOf(START, t)) <= 1 /\ Cardinality(PosOf(END, t)) <= 1
@@ -196,8 +244,9 @@ TypeOK == /\ prof \in Profiles /\ tracing \in BOOLEAN /\ dead \in BOOLEAN
 (* windows do not overlap; after Terminate every window is closed and there is
    one segment per StartTracing call *)
 WindowsOK == LET W == Windows
-             IN  /\ \A v, w \in W : v # w => (v[3] < w[2] \/ w[3] < v[2])
-                 /\ \A w \in W : w[2] < w[3]
+             IN  /\ \A v, w \in W : v # w => (v[4] < w[1] \/ w[4] < v[1])
+                 /\ \A v, w \in W : v[4] < w[1] => v[3] <= w[2]
+                 /\ \A w \in W : w[1] < w[4] /\ w[2] <= w[3]
                  /\ tracing = (\E w \in W : w[3] = Infinity)
                  /\ dead => Cardinality(SegmentsOf(W)) = Count(STARTTR)
 
